@@ -1,6 +1,6 @@
 use std::string::String;
 
-use dprint_core::formatting::PrintItems;
+use dprint_core::formatting::{PrintItems, Signal};
 use jrsonnet_rowan_parser::{nodes::TriviaKind, AstToken};
 
 use crate::{children::ChildTrivia, p, pi};
@@ -166,6 +166,8 @@ pub fn format_comments(comments: &ChildTrivia, loc: CommentLocation, out: &mut P
 					p!(out, str(" "));
 				}
 				p!(out, str("# ") string(c.text().strip_prefix('#').expect("hash comment starts with #").trim().to_string()));
+				// Whatever is printed next can't stay on the comment's line
+				out.push_signal(Signal::ExpectNewLine);
 				if !matches!(loc, CommentLocation::ItemInline) {
 					p!(out, nl);
 				}
@@ -175,6 +177,8 @@ pub fn format_comments(comments: &ChildTrivia, loc: CommentLocation, out: &mut P
 					p!(out, str(" "));
 				}
 				p!(out, str("// ") string(c.text().strip_prefix("//").expect("comment starts with //").trim().to_string()));
+				// Whatever is printed next can't stay on the comment's line
+				out.push_signal(Signal::ExpectNewLine);
 				if !matches!(loc, CommentLocation::ItemInline) {
 					p!(out, nl);
 				}
